@@ -2,4 +2,4 @@ From Coq Require Extraction ExtrOcamlBasic.
 From Wz Require Import lib.Bytes lib.ExtractBase C17.LibSort C17.Base C17.Gen C17.Model.
 Extraction Language OCaml.
 Extraction "C17/model_extracted.ml" force_types parse_list_header parse_options_header parse_q accept_items
-  parse_accept mk_accept spec_of matches_of quality contains best family_best_match mime_split locale_split to_header values render_header.
+  parse_accept mk_accept spec_of matches_of quality contains best family_best_match mime_split locale_split to_header values render_header index find getitem_int family_best_match_default accept_html accept_xhtml accept_json.
